@@ -12,7 +12,7 @@ RULE = (
     "(each position in turn set to each of {0,1,2^31,2^32-1}, plus 4 constant patterns); every SID's target SD must equal the independent "
     "MS-DTYP builder and parse back (offsets/sizes/counts/tiling), and distinct SIDs must give distinct SDs (set cardinality). "
     "Near-miss strings (count 0/16, 2^32/2^48/2^64, 2-digit revision, newline/space/tab, signs, empty parts, case, prefix, non-ASCII digits, NUL, hex) "
-    "applied at every field position of three base SIDs must raise ValueError. Non-trivial: the real builder returned bytes (grid) / the real "
+    "applied at every field position of three base SIDs must raise ValueError, and the well-formed SID converted right after each rejected string must still be exact. Non-trivial: the real builder returned bytes (grid) / the real "
     "parser was given the string (near-miss); distinct by SID string."
 )
 ASSUME = ["ref/dtyp.py calibrated on the real SD in tests/data/seed_key.json", "leading zeros are neither demanded nor forbidden (either rejection or the numerically equal SID is accepted)"]
@@ -152,8 +152,13 @@ def run_shard(shard, tier, seed, acc) -> None:
                     acc.outcome("grid-ok")
         acc.sample({"sid": s, "sd": bytes(sd).hex() if sd is not None else None})
     else:
-        for name, s in near_misses():
+        probe_sids = ["S-1-5-21-1-2-3-1104", "S-1-1-0", "S-1-5-32-544"]
+        for i_, (name, s) in enumerate(near_misses()):
             v = case_near(name, s)
+            # a rejected string must leave no trace: the next well-formed SID still converts exactly
+            pv, _ = case_grid(probe_sids[i_ % 3])
+            if pv:
+                acc.violate("after-near-miss." + pv[0], ["near-then-valid", name, s, probe_sids[i_ % 3]], pv[1])
             acc.ev()
             acc.nt(("near", s))
             if v:
@@ -185,6 +190,11 @@ def replay(case, seed, acc) -> None:
     acc.ev()
     if case[0] == "grid":
         v, _ = case_grid(case[1])
+    elif case[0] == "near-then-valid":
+        case_near(case[1], case[2])
+        v, _ = case_grid(case[3])
+        if v:
+            v = ("after-near-miss." + v[0], v[1])
     elif case[0] == "near":
         v = case_near(case[1], case[2])
         if v:
